@@ -34,9 +34,12 @@ def soil_file():
     return "\n".join(out) + "\n"
 
 
-def gw_series(seed, start_year):
-    """ids G1..G4: the first entry lies 20-40 days after the start (so the initial state is observable and equals the first level),
-    then one explicit value per day for ~14 months from a small palette (plateaus, steps, returns), later constant"""
+def gw_series(seed, start_year, n_entries=760):
+    """ids G1..G4, one explicit value per day: the first entry lies 20-40 days after the start (so the initial state is
+    observable and equals the first level); ~150 days from a small palette (plateaus, fast steps, exact returns); then slow
+    drifts: a rise of the table by 0.004-0.0095 dm per day over 2.3-3 dm (several layer boundaries), a fast move away and
+    back, the same levels revisited in the other direction at twice the step (exact returns at <= 0.02 dm per day), a
+    stretch with steps of 1e-4..1e-3 dm; then palette and drifts again until n_entries; later constant"""
     rnd = random.Random(seed * 7919 + 13)
     rows = ["SID,DATE,Level"]
     info = {}
@@ -46,22 +49,41 @@ def gw_series(seed, start_year):
         # G1 always contains the F7 pattern: 8 -> 9 -> 8
         pal = PALETTE if gid != "G2" else [p for p in PALETTE if p <= 12]
         first = 8.0 if gid == "G1" else rnd.choice(pal)
-        seq = [first] * rnd.randint(2, 5)
+        seq = ["%g" % first] * rnd.randint(2, 5)
         if gid == "G1":
-            seq += [9.0, 9.0, 8.0, 8.0]
-        while len(seq) < 420:
-            lvl = rnd.choice(pal) if rnd.random() < 0.8 else first
-            seq += [lvl] * rnd.randint(1, 4)
-            if rnd.random() < 0.15:
-                seq += [first] * rnd.randint(1, 2)
+            seq += ["9", "9", "8", "8"]
+        drifts = []
+        while len(seq) < n_entries:
+            stop = len(seq) + 150
+            while len(seq) < stop:
+                lvl = rnd.choice(pal) if rnd.random() < 0.8 else first
+                seq += ["%g" % lvl] * rnd.randint(1, 4)
+                if rnd.random() < 0.15:
+                    seq += ["%g" % first] * rnd.randint(1, 2)
+            # slow rise of the table (level decreases), crossing layer boundaries
+            step = rnd.choice([0.004, 0.005, 0.0075, 0.009, 0.0095])
+            total = rnd.uniform(2.3, 3.0)
+            n = int(total / step)
+            top = rnd.choice([6.2, 9.3, 11.6, 14.45]) if gid != "G2" else rnd.choice([6.2, 9.3, 11.6])
+            up = ["%.6f" % (top - k * step) for k in range(n + 1)]
+            seq += up
+            # fast move away and back to the end of the drift
+            seq += ["%g" % rnd.choice(pal)] * 2 + [up[-1]] * 2
+            # slow fall through the same levels, every second one (<= 0.019 dm per day): exact returns
+            seq += up[::-1][::2]
+            # a nearly standing table
+            tiny = rnd.choice([0.0001, 0.0003, 0.001])
+            base = float(seq[-1])
+            seq += ["%.6f" % (base - k * tiny) for k in range(1, 40)]
+            drifts.append({"step": step, "days": n, "from": top, "to": float(up[-1]), "tiny": tiny})
         for lvl in seq:
-            rows.append("%s,%02d%02d%04d,%s" % (gid, d.month, d.day, d.year, ("%g" % lvl)))
+            rows.append("%s,%02d%02d%04d,%s" % (gid, d.month, d.day, d.year, lvl))
             d += datetime.timedelta(days=1)
-        info[gid] = {"first_level": first, "entries": len(seq)}
+        info[gid] = {"first_level": first, "entries": len(seq), "slow_drifts": drifts}
     return "\n".join(rows) + "\n", info
 
 
-def make_projects(ex, seed, repo_examples=None):
+def make_projects(ex, seed, thorough=False):
     """ex = scratch copy of the examples tree; returns the batch lines' building blocks"""
     src = os.path.join(ex, "project", "ex3")
     info = {}
@@ -79,7 +101,7 @@ def make_projects(ex, seed, repo_examples=None):
         open(cfgp, "w").write(cfg)
         open(os.path.join(dst, "soil_%s.csv" % name), "w").write(soil_file())
         start_year = int(re.search(r"(?m)^StartYear:\s*(\d+)", cfg).group(1))
-        txt, ginfo = gw_series(seed, start_year)
+        txt, ginfo = gw_series(seed, start_year, 3400 if thorough else 760)
         open(os.path.join(dst, "gw_%s.csv" % name), "w").write(txt)
         info["gw"] = ginfo
         # polygon file: GH GL give mean level and amplitude of the sinusoid
